@@ -4,6 +4,7 @@ import LncModel.MsgData
 import LncModel.Facts.Generated
 import LncModel.Queue
 import LncModel.TraceCheck
+import LncModel.Chunk
 /-
   Line-protocol driver: one operation per input line, one canonical result per
   output line.  Imports model files only (no Mathlib, no proofs) so it links as
@@ -34,6 +35,12 @@ def parseU8 (s : String) : Option UInt8 :=
   match s.toNat? with
   | some n => if n < 256 then some (UInt8.ofNat n) else none
   | none => none
+
+def parseMsgs (s : String) : Option (List Bytes) :=
+  if s = "none" then some [] else (s.splitOn ",").mapM bytesOfHex
+
+def showMsgs (ms : List Bytes) : String :=
+  if ms.isEmpty then "none" else ",".intercalate (ms.map hexOrDash)
 
 def pureStep (toks : List String) : String :=
   match toks with
@@ -92,6 +99,24 @@ def pureStep (toks : List String) : String :=
     match s.toNat?, t.toNat? with
     | some s, some t => showOutcome (fun (r : Nat × Nat) => s!"{r.1} {r.2}") (syncerExpect s t)
     | _, _ => "bad-op"
+  | ["chunk.split", m, hex] =>
+    match m.toNat?, bytesOfHex hex with
+    | some m, some d =>
+      ",".intercalate ((split m d).map fun p => s!"{p.payload.length}:{showBool p.final}")
+    | _, _ => "bad-op"
+  | ["chunk.roundtrip", m, msgs] =>
+    match m.toNat?, parseMsgs msgs with
+    | some m, some ms => showMsgs (reassembleOut (ms.flatMap (split m)) [])
+    | _, _ => "bad-op"
+  | ["chunk.sendtimeout", m, k, hex] =>
+    -- a Send that timed out after k chunks, then the same payload sent again
+    match m.toNat?, k.toNat?, bytesOfHex hex with
+    | some m, some k, some d => showMsgs (reassembleOut (splitTimedOut m k d ++ split m d) [])
+    | _, _, _ => "bad-op"
+  | ["chunk.recvbudgets", m, budgets, msgs] =>
+    match m.toNat?, (budgets.splitOn ",").mapM String.toNat?, parseMsgs msgs with
+    | some m, some bs, some ms => showMsgs (recvCalls bs ⟨ms.flatMap (split m), []⟩)
+    | _, _, _ => "bad-op"
   | ["q.mks", n] => (n.toNat?).elim "bad-op" fun n => toString (mkS n)
   | _ => "bad-op"
 
@@ -108,8 +133,6 @@ def parseReaction (s : String) : Option Reaction :=
   | ["nack", a, c] => do some (.nack (← a.toNat?) (← c.toNat?))
   | _ => none
 
-def parseMsgs (s : String) : Option (List Bytes) :=
-  if s = "none" then some [] else (s.splitOn ",").mapM bytesOfHex
 
 def uniApply (st : DState) (dir : Nat) (f : Dir → Except String Dir) : DState × String :=
   if st.failed then (st, "ok") else
